@@ -13,6 +13,7 @@ let run_consts _ =
 let dispatchers : (string list -> string option) list = [
   C_seqnr.dispatch;
   C_rtte.dispatch;
+  C_rx.dispatch;
 ]
 
 let dispatch line =
